@@ -1,8 +1,9 @@
 import VModel.Sentence
+import VProofs.Lemmas.PartRound
 /-!
 # C04 — Partial-annotation format round-trips
 
-Property theorems only (helper lemmas live in `VProofs/Lemmas/Part*.lean`).
+Property theorems only (helper lemmas live in `VProofs/Lemmas/Part*.lean`, namespace `V.C04L`).
 -/
 namespace V
 
@@ -26,12 +27,21 @@ theorem C04_roundtrip (s : Sentence) (h : WFPart s) :
       p.text = s.text ∧ p.bounds = s.bounds ∧
       ∀ i < s.text.length,
         charTagsTrim p.tags (p.tags.length / p.text.length) i = charTagsTrim s.tags s.nTags i := by
-  sorry
+  obtain ⟨w, tt, hw, hp, hl, htt⟩ := C04L.writePartial_parse s h.text_ne h.text_nul h.bounds_len h.tags_len
+  have hn : 0 < s.text.length := List.length_pos_iff.mpr h.text_ne
+  exact ⟨w, _, hw, hp, rfl, rfl, fun i hi =>
+    C04L.padTags_readback s.tags s.nTags s.text.length hn h.tags_ok tt hl htt i hi⟩
 
 /-- every string the parser accepts yields a sentence in the domain of `C04_roundtrip` -/
 theorem C04_parsed_wf (x : List Char) (p : Parsed) (h : parsePartial x = .ok p) :
     ∃ s, Sentence.ofParsed p = .ok s ∧ WFPart s := by
-  sorry
+  obtain ⟨tt, htags, hl, hnul, hbl⟩ := C04L.parsePartial_ok h
+  have hn : 0 < p.text.length := by omega
+  have hne : p.text ≠ [] := List.length_pos_iff.mp hn
+  obtain ⟨h1, h2⟩ := C04L.parsed_tags_ok tt p.text.length hn hl
+  rw [← htags] at h1 h2
+  refine ⟨_, by simp only [Sentence.ofParsed, divTags, Nat.ne_of_gt hn, if_false]; rfl, ?_⟩
+  exact ⟨hne, hnul, hbl, h1, h2⟩
 
 /-! ## non-vacuity; the writer of the pinned tree (no escaping) is refuted by the same witness -/
 
